@@ -85,6 +85,7 @@ NewWit(m, ev) ==
                              \cup (IF q.rid = ev.rid /\ q.accepts /\ ~ev.credhdr THEN {"header_stripped"} ELSE {})
     [] ev.k = "response" -> IF q.rid = ev.rid /\ AuthRequired(ev.status) /\ ~Allowed(m, q)
                             THEN {"refused_" \o m.conn[q.c].path, "refused_" \o q.form}
+                                 \cup (IF q.cred = "raises" THEN {"refused_when_validator_raises"} ELSE {})
                             ELSE IF q.rid = ev.rid /\ q.form = "connect" /\ ev.status \in 200..299
                             THEN {"tunnel_established"} ELSE {}
     [] OTHER -> {}
